@@ -8,6 +8,7 @@
 //   - <-E.Done() (statement)          -> vsched.WaitDone(E)
 //   - range over a map                -> range vsched.MapSeq(m)
 //   - x.f (field of a godi struct)    -> (*vsched.R(&x.f, site)) / (*vsched.W(&x.f, site))
+//   - v (mutable package-level var)   -> (*vsched.R(&v, site)) / (*vsched.W(&v, site))
 //
 // usage: rw -repo /repo -shim /verif/shim/vsched -out <dir>
 package main
@@ -41,6 +42,7 @@ type stats struct {
 	MapRanges  int            `json:"map_ranges"`
 	Reads      int            `json:"field_reads"`
 	Writes     int            `json:"field_writes"`
+	PkgVars    int            `json:"package_var_accesses"`
 	Unshimmed  []string       `json:"unshimmed_constructs"`
 	PerPackage map[string]int `json:"per_package_files"`
 }
@@ -76,12 +78,13 @@ func main() {
 			}
 			fatal("package " + p.PkgPath + " does not type-check")
 		}
+		mut := mutablePkgVars(p)
 		for i, f := range p.Syntax {
 			name := p.CompiledGoFiles[i]
 			if strings.HasSuffix(name, "_test.go") {
 				continue
 			}
-			r := &rewriter{pkg: p, file: f, fset: p.Fset, st: st, noAccess: *noAccess}
+			r := &rewriter{pkg: p, file: f, fset: p.Fset, st: st, noAccess: *noAccess, mutVars: mut}
 			r.rewrite()
 			var buf bytes.Buffer
 			f.Comments = nil
@@ -135,6 +138,85 @@ type rewriter struct {
 	sites    map[*ast.SelectorExpr]string
 	idxKind  map[*ast.IndexExpr]int // slice element accesses: 1 = read, 2 = write, 3 = skip (address taken)
 	afterFn  map[*ast.CallExpr]bool // calls of context.AfterFunc
+	mutVars  map[*types.Var]bool    // package-level variables that are shared mutable state
+	idKind   map[*ast.Ident]int     // package-level variable uses: 1 = read, 2 = write, 3 = skip
+}
+
+// pkgVarOf returns the package-level variable of this package an identifier refers to.
+func pkgVarOf(p *packages.Package, id *ast.Ident) *types.Var {
+	v, ok := p.TypesInfo.Uses[id].(*types.Var)
+	if !ok || v.IsField() || v.Pkg() == nil || v.Parent() != p.Types.Scope() {
+		return nil
+	}
+	return v
+}
+
+// mutablePkgVars lists the package-level variables that can be shared mutable state: those
+// assigned / incremented / index-assigned / appended to / deleted from inside a function body, and
+// those of map, slice or channel type. (Variables only initialised at their declaration, like
+// error sentinels and reflect.Type constants, are immutable after package initialisation.)
+func mutablePkgVars(p *packages.Package) map[*types.Var]bool {
+	mut := map[*types.Var]bool{}
+	mark := func(e ast.Expr) {
+		e = unparen(e)
+		if ix, ok := e.(*ast.IndexExpr); ok {
+			e = unparen(ix.X)
+		}
+		if id, ok := e.(*ast.Ident); ok {
+			if v := pkgVarOf(p, id); v != nil {
+				mut[v] = true
+			}
+		}
+	}
+	for _, f := range p.Syntax {
+		for _, d := range f.Decls {
+			fd, ok := d.(*ast.FuncDecl)
+			if !ok || fd.Body == nil {
+				continue
+			}
+			ast.Inspect(fd.Body, func(n ast.Node) bool {
+				switch x := n.(type) {
+				case *ast.AssignStmt:
+					if x.Tok != token.DEFINE {
+						for _, l := range x.Lhs {
+							mark(l)
+						}
+					}
+				case *ast.IncDecStmt:
+					mark(x.X)
+				case *ast.RangeStmt:
+					if x.Tok == token.ASSIGN {
+						if x.Key != nil {
+							mark(x.Key)
+						}
+						if x.Value != nil {
+							mark(x.Value)
+						}
+					}
+				case *ast.CallExpr:
+					if id, ok := unparen(x.Fun).(*ast.Ident); ok && len(x.Args) > 0 && (id.Name == "delete" || id.Name == "clear") {
+						if _, isBuiltin := p.TypesInfo.Uses[id].(*types.Builtin); isBuiltin {
+							mark(x.Args[0])
+						}
+					}
+				}
+				return true
+			})
+		}
+	}
+	sc := p.Types.Scope()
+	for _, n := range sc.Names() {
+		if v, ok := sc.Lookup(n).(*types.Var); ok {
+			switch v.Type().Underlying().(type) {
+			case *types.Map, *types.Slice, *types.Chan:
+				mut[v] = true
+			}
+			if isShimType(v.Type()) {
+				delete(mut, v)
+			}
+		}
+	}
+	return mut
 }
 
 func (r *rewriter) info() *types.Info { return r.pkg.TypesInfo }
@@ -270,6 +352,74 @@ func (r *rewriter) prepass() {
 		}
 		return true
 	})
+	r.idKind = map[*ast.Ident]int{}
+	if !r.noAccess && len(r.mutVars) > 0 {
+		setID := func(e ast.Expr, k int) {
+			e = unparen(e)
+			if ix, ok := e.(*ast.IndexExpr); ok && k == 2 {
+				// m[k] = v writes the map held by the variable
+				if t := r.info().TypeOf(ix.X); t != nil {
+					if _, isMap := t.Underlying().(*types.Map); isMap {
+						e = unparen(ix.X)
+					}
+				}
+			}
+			if id, ok := e.(*ast.Ident); ok {
+				if v := pkgVarOf(r.pkg, id); v != nil && r.mutVars[v] && r.idKind[id] < k {
+					r.idKind[id] = k
+				}
+			}
+		}
+		for _, d := range r.file.Decls {
+			fd, ok := d.(*ast.FuncDecl)
+			if !ok || fd.Body == nil {
+				continue // package-level initialisers run before any goroutine exists
+			}
+			ast.Inspect(fd.Body, func(n ast.Node) bool {
+				switch x := n.(type) {
+				case *ast.Ident:
+					setID(x, 1)
+				case *ast.AssignStmt:
+					if x.Tok != token.DEFINE {
+						for _, l := range x.Lhs {
+							setID(l, 2)
+						}
+					}
+				case *ast.IncDecStmt:
+					setID(x.X, 2)
+				case *ast.RangeStmt:
+					if x.Tok == token.ASSIGN {
+						if x.Key != nil {
+							setID(x.Key, 2)
+						}
+						if x.Value != nil {
+							setID(x.Value, 2)
+						}
+					}
+				case *ast.UnaryExpr:
+					if x.Op == token.AND {
+						setID(x.X, 3) // address taken: handed to an atomic / to a callee
+					}
+				case *ast.CallExpr:
+					if id, ok := unparen(x.Fun).(*ast.Ident); ok && len(x.Args) > 0 && (id.Name == "delete" || id.Name == "clear") {
+						if _, isBuiltin := r.info().Uses[id].(*types.Builtin); isBuiltin {
+							setID(x.Args[0], 2)
+						}
+					}
+				case *ast.SelectorExpr:
+					// pkg.Name / x.field: the Sel identifier is not a variable use of its own
+					r.idKind[x.Sel] = 3
+				case *ast.KeyValueExpr:
+					if id, ok := x.Key.(*ast.Ident); ok {
+						if _, isVar := r.info().Uses[id].(*types.Var); isVar && pkgVarOf(r.pkg, id) == nil {
+							r.idKind[id] = 3
+						}
+					}
+				}
+				return true
+			})
+		}
+	}
 	if !r.noAccess {
 		ast.Inspect(r.file, func(n ast.Node) bool {
 			if x, ok := n.(*ast.SelectorExpr); ok {
@@ -452,6 +602,25 @@ func (r *rewriter) rewrite() {
 			r.needShim = true
 			c.Replace(&ast.ParenExpr{X: &ast.StarExpr{X: shimCall(fn,
 				&ast.UnaryExpr{Op: token.AND, X: x},
+				&ast.BasicLit{Kind: token.STRING, Value: strconv.Quote(site)})}})
+		case *ast.Ident:
+			k := r.idKind[x]
+			if r.noAccess || k == 0 || k == 3 {
+				return true
+			}
+			if sel, ok := c.Parent().(*ast.SelectorExpr); ok && sel.Sel == x {
+				return true
+			}
+			pos := r.fset.Position(x.Pos())
+			site := fmt.Sprintf("%s:%d var %s", filepath.Base(pos.Filename), pos.Line, x.Name)
+			fn := "R"
+			if k == 2 {
+				fn = "W"
+			}
+			r.st.PkgVars++
+			r.needShim = true
+			c.Replace(&ast.ParenExpr{X: &ast.StarExpr{X: shimCall(fn,
+				&ast.UnaryExpr{Op: token.AND, X: ast.NewIdent(x.Name)},
 				&ast.BasicLit{Kind: token.STRING, Value: strconv.Quote(site)})}})
 		case *ast.SelectorExpr:
 			if r.noAccess {
